@@ -143,6 +143,14 @@ Inductive case :=
         (results : list (option (Z * option err))) (wire : list Z) (calls : list (Z * Z))
 | CMustClose (coalesce : bool) (frame : list Z) (n : Z) (e : err) (closed : bool)
    (* a whole Conn: the only request's Write accepted n bytes and returned e; was the connection closed afterwards? *)
+| CCoalBig (has_to : bool) (k : Z) (faults : list (Z * fkind)) (rounds : list Z)
+           (results : list (Z * (Z * option err))) (wire_whole : Z) (wire_tail : list Z) (calls : list (Z * (Z * Z)))
+   (* a large batch through the coalescer, written compactly: k requests with the body-less frames [opt_frame t], handed to
+      the flusher one by one in id order in rounds of the given sizes, the timer firing after each round (if anything is
+      queued); results run-length encoded in id order ((count, result)), Write calls as runs of consecutive ids with the same count
+      ((first id, (how many, n))); the bytes the connection
+      accepted as the number of leading whole frames 0, 1, 2, ... (parsed by the harness's independent parser and compared
+      with the frames byte by byte) and the raw rest *)
 | CConn (coalesce : bool) (frames : list (list Z)) (faults : list (Z * fkind)) (dlfail : list (Z * Z))
         (devs : list dev) (cevs : list cev)
         (results : list (option (Z * Z))) (wire : list Z) (calls : list (Z * Z)) (closed : bool).
@@ -167,6 +175,39 @@ Definition results_match (th : threads) (k : nat) (rs : list (option (Z * option
 Definition calls_match (h : list (nat * nat)) (cs : list (Z * Z)) : bool :=
   (length h =? length cs) &&
   forallb (fun ab => (Z.of_nat (fst (fst ab)) =? fst (snd ab))%Z && (Z.of_nat (snd (fst ab)) =? snd (snd ab))%Z) (combine h cs).
+
+(* the body-less protocol-4 OPTIONS frame of request t (stream t + 1): what the harness's mkFrame(.., t, -1) builds *)
+Definition opt_frame (t : nat) : list Z :=
+  [4; 0; Z.of_nat ((t + 1) / 256); Z.of_nat ((t + 1) mod 256); 5; 0; 0; 0; 0]%Z.
+
+Fixpoint enq_round (has_to : bool) (s : cstate) (t n : nat) : option cstate :=
+  match n with
+  | O => Some s
+  | S n' => bind (cstep has_to s (CEnqueue t)) (fun s' => enq_round has_to s' (S t) n')
+  end.
+
+Fixpoint drive_rounds (has_to : bool) (s : cstate) (ev : env) (t : nat) (rounds : list Z) : option (cstate * env) :=
+  match rounds with
+  | [] => Some (s, ev)
+  | r :: rs =>
+      bind (enq_round has_to s t (Z.to_nat r)) (fun s1 =>
+      match c_queue s1 with
+      | [] => drive_rounds has_to s1 ev (t + Z.to_nat r) rs          (* everybody was answered at once: the timer is not armed *)
+      | _ => bind (drive_flush has_to s1 ev) (fun se => drive_rounds has_to (fst se) (snd se) (t + Z.to_nat r) rs)
+      end)
+  end.
+
+Fixpoint expand_results (rl : list (Z * (Z * option err))) : list (option (Z * option err)) :=
+  match rl with
+  | [] => []
+  | (c, r) :: rl' => repeat (Some r) (Z.to_nat c) ++ expand_results rl'
+  end.
+
+Fixpoint expand_calls (cl : list (Z * (Z * Z))) : list (Z * Z) :=
+  match cl with
+  | [] => []
+  | (t, (c, n)) :: cl' => map (fun i => (Z.of_nat i, n)) (seq (Z.to_nat t) (Z.to_nat c)) ++ expand_calls cl'
+  end.
 
 (* the class of a write result as the WriteEnd trace point records it (verifWriteClass) *)
 Definition write_class (r : res) : Z :=
@@ -233,6 +274,16 @@ Definition check (c : case) : bool :=
         | Some s => Bool.eqb (d_connclosed (try_d true (try_d true s (DCancel 0)) (DClose 0))) closed
         | None => false
         end
+  | CCoalBig has_to k faults rounds results wire_whole wire_tail calls =>
+      let kn := Z.to_nat k in
+      let frames := map opt_frame (seq 0 kn) in
+      match bind (crun has_to c_init (map CCall frames)) (fun s => drive_rounds has_to s (mk_env faults []) 0 rounds) with
+      | Some (s, _) =>
+          results_match (c_thr s) kn (expand_results results)
+          && zlist_eqb (map snd (c_wire s)) (concat (map opt_frame (seq 0 (Z.to_nat wire_whole))) ++ wire_tail)
+          && calls_match (c_hist s) (expand_calls calls)
+      | None => false
+      end
   | CConn coalesce frames faults dlfail devs cevs results wire calls closed =>
       let k := length frames in
       if coalesce then
